@@ -89,5 +89,34 @@ CONFIG["C20"] = dict(
     trusted_base=["mdlayher/netlink attribute encoding modelled in Model/Netlink.lean", "kernel struct layouts transcribed by hand; compared with unsafe images of golang.org/x/sys/unix structs"],
 )
 
+CONFIG["C04"] = dict(
+    level_text="The Lean model of text/scanner + pkg/dbc (Model/TextScanner.lean, Model/DbcParse.lean) is an executable function-by-function transcription of the parser; kernel-checked theorems (Props/C04.lean) cover the token-level facts the round trip rests on; the faithful-read-back property itself is decided per run by comparing, for grammar-derived files (all 16 kinds, 4 layout modes, positions), the real parser's definitions with the AST the text was printed from (oracle independent of the parser) and with the Lean model.",
+    level_note="Partial proof: C04_roundtrip over all ASTs x layouts is not proved (stated in DESIGN.md); proved are the scanner/strconv lemmas in Props/C04.lean. text/scanner, strconv and unicode are modelled (validated by correspondence on every run; unicode tables regenerated from the toolchain and compared).",
+    level="proof",
+    trivial=r"^(ok 0 ;; -)$",
+    rule="files are generated from the grammar of DESIGN.md 4.1 by harness/internal/ops/dbcgen.go; a case is non-trivial when the file has at least one definition; input_distribution counts kinds and files with >= 6 kinds",
+    trusted_base=["text/scanner, strconv, unicode (stdlib) modelled in Lean, validated by correspondence", "the grammar generator computes the oracle (expected definitions and positions) independently of the parser; floats via strconv.ParseFloat"],
+)
+CONFIG["C12"] = dict(
+    level_text="Kernel-checked Lean theorems (Props/C12.lean) about the executable parser model: it is a total function on every byte string with outcome ok/error/panic/out-of-fuel (termination by construction: every loop is structurally recursive on a fuel argument), never produces the panic outcome (all partial Go operations are guarded in the transcription), error positions lie inside the input; the model is compared with the real parser on fixed edge inputs, mutated generated files (byte flips, NUL, invalid UTF-8, truncation, token splices, huge numbers, repetition), random bytes, and the locality clause on every generated file x definition index x corruption operator (each input parsed twice under recover).",
+    level_note="Partial: the out-of-fuel outcome is not proved unreachable (the fuel is input length + 2 per loop; checked never to occur on any executed input). Go runtime panics outside the modelled partial operations and stdlib behaviour are covered by correspondence only.",
+    level="proof",
+    trivial=r"^(ok 0 ;; -|local no-error)$",
+    rule="inputs: fixed edge list + mutations of grammar-derived files + random bytes + locality corruptions; non-trivial = not the empty parse and not a vacuous locality case",
+    trusted_base=["text/scanner, strconv, unicode (stdlib) modelled in Lean, validated by correspondence"],
+)
+
 PRE_PROVE = {}
-TIES = {}
+def _unicode_tie(work, impl):
+    """the committed unicode tables equal what the toolchain's unicode package says now"""
+    import subprocess, os
+    env = dict(os.environ, GOFLAGS="-mod=mod", GOPROXY="off", GOSUMDB="off", GOTOOLCHAIN="local")
+    r = subprocess.run(["go", "run", "./cmd/unitab"], cwd=os.path.join(os.path.dirname(os.path.dirname(os.path.abspath(__file__))), "harness"),
+                       env=env, stdout=subprocess.PIPE, stderr=subprocess.PIPE, text=True)
+    if r.returncode != 0:
+        return "unitab failed: " + r.stderr[-300:]
+    committed = open(os.path.join(os.path.dirname(os.path.dirname(os.path.abspath(__file__))), "lean", "CanVerif", "Model", "UnicodeTables.lean")).read()
+    return "" if r.stdout == committed else "unicode tables of the toolchain differ from lean/CanVerif/Model/UnicodeTables.lean (re-run harness/cmd/unitab)"
+
+
+TIES = {"C04": [("unicode-tables", _unicode_tie)], "C12": [("unicode-tables", _unicode_tie)]}
